@@ -169,11 +169,11 @@ func (r *Run) user(a Action) {
 		if r.WorkloadVersion() == ver {
 			return
 		}
-		if a.Arg == UserRollback && KnownOpen[FindingRevertBeforeObserved] && os.Getenv("VERIF_REPLAY") == "" && r.revertBeforeObserved() {
+		if a.Arg == UserRollback && KnownOpen[FindingRevertBeforeObserved] && os.Getenv("VERIF_REPLAY_STRICT") == "" && r.revertBeforeObserved() {
 			r.W.Excluded[FindingRevertBeforeObserved]++
 			return
 		}
-		if a.Arg == UserRelease && r.releaseDuringCancel() {
+		if r.releaseDuringCancel() {
 			r.W.Excluded[FindingReleaseDuringCancel]++
 			return
 		}
@@ -349,7 +349,7 @@ var KnownOpen = map[string]bool{FindingRevertBeforeObserved: true, FindingExitBe
 
 // scaleBelowTrafficStep: partition style + provider + an integer step with traffic >= n.
 func (r *Run) scaleBelowTrafficStep(n int) bool {
-	if !KnownOpen[FindingScaleBelowTrafficStep] || os.Getenv("VERIF_REPLAY") != "" || !r.S.HasTraffic() || r.S.Style != "partition" {
+	if !KnownOpen[FindingScaleBelowTrafficStep] || os.Getenv("VERIF_REPLAY_STRICT") != "" || !r.S.HasTraffic() || r.S.Style != "partition" {
 		return false
 	}
 	ro := r.W.Rollout(r.S.Namespace, r.S.Name)
@@ -374,14 +374,16 @@ func (r *Run) scaleBelowTrafficStep(n int) bool {
 
 // releaseDuringCancel: traffic routing configured and the Rollout is finalising a rollback.
 func (r *Run) releaseDuringCancel() bool {
-	if !KnownOpen[FindingReleaseDuringCancel] || os.Getenv("VERIF_REPLAY") != "" {
+	if !KnownOpen[FindingReleaseDuringCancel] || os.Getenv("VERIF_REPLAY_STRICT") != "" {
 		return false
 	}
-	// (a) any release while a rollback is being finalised: the webhook holds the workload and
+	// (a) any template change while a rollback or a completed release is being finalised
+	// (Progressing reason Cancelling / Finalising): the webhook holds the workload and
 	// marks it in-progressing, the cancel's next finalising round removes the marker again, and
 	// the workload stays held with no release ever started for it
 	if ro := r.W.Rollout(r.S.Namespace, r.S.Name); ro != nil && ro.Status.Phase == v1beta1.RolloutPhaseProgressing {
-		if cond := util.GetRolloutCondition(ro.Status, v1beta1.RolloutConditionProgressing); cond != nil && cond.Reason == v1alpha1.ProgressingReasonCancelling {
+		if cond := util.GetRolloutCondition(ro.Status, v1beta1.RolloutConditionProgressing); cond != nil &&
+			(cond.Reason == v1alpha1.ProgressingReasonCancelling || cond.Reason == v1alpha1.ProgressingReasonFinalising) {
 			return true
 		}
 	}
@@ -406,7 +408,7 @@ func (r *Run) releaseDuringCancel() bool {
 // jumpToSelfWithPlanEdit: the rollout is InRolling at step k before its upgrade finished, and
 // after this action both a plan edit and nextStepIndex == k would be outstanding.
 func (r *Run) jumpToSelfWithPlanEdit(ro *v1beta1.Rollout, next int32, editing bool) bool {
-	if !KnownOpen[FindingPlanEditJumpToSelf] || os.Getenv("VERIF_REPLAY") != "" {
+	if !KnownOpen[FindingPlanEditJumpToSelf] || os.Getenv("VERIF_REPLAY_STRICT") != "" {
 		return false
 	}
 	sub := ro.Status.GetSubStatus()
@@ -427,7 +429,7 @@ func (r *Run) jumpToSelfWithPlanEdit(ro *v1beta1.Rollout, next int32, editing bo
 
 // exitBeforeBatchRelease: workload marked in-progressing and no BatchRelease exists.
 func (r *Run) exitBeforeBatchRelease() bool {
-	if !KnownOpen[FindingExitBeforeBatchRelease] || os.Getenv("VERIF_REPLAY") != "" {
+	if !KnownOpen[FindingExitBeforeBatchRelease] || os.Getenv("VERIF_REPLAY_STRICT") != "" {
 		return false
 	}
 	o := r.workload()
@@ -641,6 +643,9 @@ func (r *Run) FinalState() map[string]any {
 	}
 	for _, gvk := range []schema.GroupVersionKind{GVKService, GVKIngress, GVKHTTPRoute} {
 		for _, o := range w.ListAll(gvk, s.Namespace) {
+			if !s.ownsObject(w, gvk, o, 0) {
+				continue
+			}
 			m := normalized(o)
 			delete(m, "status")
 			if md, ok := m["metadata"].(map[string]any); ok {
@@ -656,7 +661,7 @@ func (r *Run) FinalState() map[string]any {
 	}
 	deps := 0
 	for _, o := range w.ListAll(GVKDeployment, s.Namespace) {
-		if o.GetDeletionTimestamp() == nil {
+		if o.GetDeletionTimestamp() == nil && s.ownsObject(w, GVKDeployment, o, 0) {
 			deps++
 		}
 	}
@@ -664,7 +669,7 @@ func (r *Run) FinalState() map[string]any {
 	pods := map[string]int{}
 	for _, o := range w.ListAll(GVKPod, s.Namespace) {
 		p := o.(*corev1.Pod)
-		if p.DeletionTimestamp != nil {
+		if p.DeletionTimestamp != nil || p.Labels["app"] != s.Name {
 			continue
 		}
 		pods[fmt.Sprintf("rev=%s ready=%v", p.Labels[appsv1.DefaultDeploymentUniqueLabelKey], isPodReady(p))]++
